@@ -281,9 +281,9 @@ def b_chunks(ctx):
     from contracts.rainflow_bounded import run, signals, split, repro_chunks, DETECTORS
     from specs.rainflow_spec import compositions, TP
     A, N = (4, 6) if ctx.tier == 'quick' else (4, 8)
-    ctx.bound = f"all signals over alphabet {{0..{A-1}}} of length 1..{N} x all 2^(len-1) partitions into consecutive non-empty chunks, 3 detectors"
+    ctx.bound = f"all signals over alphabet {{0..{A-1}}} of length 1..{N} x all 2^(len-1) partitions into consecutive non-empty chunks, 3 detectors; plus seeded alternating integer sequences in [-3, 3] of length 10..16 (quick 4000, thorough 60000) x every split into two chunks and one random partition"
     ctx.rule = "non-trivial: >= 2 chunks and the signal has a turning point; distinct by (detector, signal, partition)"
-    ctx.exhaustive = True
+    ctx.exhaustive = False
     for s in signals(A, N):
         if not ctx.mine():
             continue
@@ -307,6 +307,33 @@ def b_chunks(ctx):
                         cn, li = rec.chunk_local_index(np.int64(g))
                         if not (0 <= cn < len(chunks) and 0 <= li < len(chunks[cn]) and chunks[cn][li] == s[g]):
                             ctx.fail(f'C01:chunk_local_index', f'global index {g} of {list(s)} with chunks {sizes} mapped to chunk {cn} pos {li}', repro_chunks(det, s, sizes))
+    # longer signals with both signs (the FKM rule compares |turn| values: a tie between a positive and a negative extreme needs >= 7 reversals to matter across a
+    # chunk border - added after seed C01-d): seeded alternating integer sequences in [-3, 3], every split into two chunks and one random partition
+    import random
+    nw = 4000 if ctx.tier == 'quick' else 60000
+    for w in range(nw):
+        if not ctx.mine():
+            continue
+        rng = random.Random(7919 * ctx.seed + w)
+        n, up = rng.randrange(10, 17), rng.random() < 0.5
+        s = [float(rng.randrange(-3, 4))]
+        while len(s) < n:
+            lo, hi = (int(s[-1]) + 1, 3) if up else (-3, int(s[-1]) - 1)
+            if lo <= hi:
+                s.append(float(rng.randrange(lo, hi + 1)))
+            up = not up
+        s = tuple(s)
+        cuts = sorted(rng.sample(range(1, len(s)), rng.randrange(2, 5)))
+        parts = [[c, len(s) - c] for c in range(1, len(s))] + [[b_ - a_ for a_, b_ in zip([0] + cuts, cuts + [len(s)])]]
+        for det in DETECTORS:
+            ref, _, _ = run(det, [s])
+            for sizes in parts:
+                got, d, rec = run(det, split(s, sizes))
+                ctx.case(True)
+                ref2 = dict(ref, chunks=sizes if det != 'fkm' else got['chunks'])
+                if got != ref2:
+                    diff = [k for k in ref2 if got.get(k) != ref2[k]]
+                    ctx.fail(f'C01:chunking:{det}', f'{det} detector, signal {list(s)}, chunks {sizes}: {diff} differ from the one-piece run', repro_chunks(det, s, sizes))
     ctx.sample({'signal': [0, 2, 2, 1, 3, 0], 'partition': [2, 1, 3], 'detectors': list(DETECTORS)})
 
 
